@@ -30,7 +30,7 @@ NATIVE_COVERS = {q: ["get_async"] for q in ("release_data", "finish_task", "get_
 def native(tier, seed):
     from vf import cb_native, sched_native
     # callback histories (length 3; longer ones are C05's) include a failing scheduler call: its finish callbacks and the active set afterwards
-    return [sched_native.sweep(tier, seed), sched_native.remote_exception_sweep(tier, seed), cb_native.sweep(tier, seed, length=3)]
+    return [sched_native.sweep(tier, seed), sched_native.remote_exception_sweep(tier, seed), sched_native.raising_kinds_sweep(tier, seed), cb_native.sweep(tier, seed, length=3)]
 
 
 def replay_native(native):
